@@ -42,6 +42,8 @@ def shards(tier, seed):
         for p in (37, 41, 43, 47, 53, 59, 61):
             for i in range(4):
                 out.append(("toysample_p%d_%d" % (p, i), dict(kind="toy", p=p, part=i, parts=4, nrep=3, full=False, sample_curves=6)))
+    out.append(("pyopt_toy_p7", dict(kind="toy", p=7, part=0, parts=1, nrep=6, full=False, _pyopt=True)))
+    out.append(("pyopt_prod_NIST192p", dict(kind="prod", cname="NIST192p", rounds=2, _pyopt=True)))
     for c in lib.pick_curves(tier, seed, extra=4):
         out.append(("prod_%s" % c.name, dict(kind="prod", cname=c.name, rounds=3 if q else 25)))
     return out
